@@ -73,6 +73,8 @@ where
             3 => 0,
             _ => rng.range(smin, smax),
         };
+        // (a signed small type under an unsigned big type: only values the big type can express)
+        let v = v.max(bmin.max(smin));
         let n = rng.below(6) as usize;
         if v == smax {
             log.oblige("from_elem_max_refused");
@@ -295,6 +297,18 @@ pub fn drive(log: &mut Log) {
                 5 => wide_history::<u16, u32>(log, &mut rng, "u16_u32"),
                 _ => wide_history::<u8, u64>(log, &mut rng, "u8_u64"),
             }
+            continue;
+        }
+        if case % 7 == 6 {
+            // mixed signedness (accepted by the size assertion): signed small type, unsigned big type and
+            // the other way round
+            match (case / 7) % 4 {
+                0 => history::<i8, u16>(log, &mut rng, "i8_u16", 0, 65535),
+                1 => history::<i16, u32>(log, &mut rng, "i16_u32", 0, 2_000_000_000),
+                2 => history::<i8, usize>(log, &mut rng, "i8_usize", 0, 2_000_000_000),
+                _ => history::<u8, isize>(log, &mut rng, "u8_isize", -2_000_000_000, 2_000_000_000),
+            }
+            log.oblige("mixed_signedness_type_pairs");
             continue;
         }
         match case % 5 {
